@@ -159,7 +159,11 @@ pub fn run(env: &mut Env) -> Outcome {
     if !srv.history.is_empty() && offered_on_wire != mask {
         return viol("c02/offered-mask", &format!("configured={} sent={}", mask_class(mask), mask_class(offered_on_wire)), format!("the configuration implies requested protocols {:#x} but the connection request carries {:#x}", mask, offered_on_wire));
     }
-    let legit = kind == CcKind::Response && ((sel == 1 && mask & 1 != 0) || (sel == 2 && mask & 2 != 0) || (sel == 8 && mask & 8 != 0) || (sel == 0 && mask == 0));
+    // a confirm without negotiation data is a server that only knows standard RDP security: what a client that offered
+    // nothing else (mask 0) asked for; for any other offer it is a selection that was not offered
+    let legit = (kind == CcKind::Response && ((sel == 1 && mask & 1 != 0) || (sel == 2 && mask & 2 != 0) || (sel == 8 && mask & 8 != 0) || (sel == 0 && mask == 0)))
+        || (kind == CcKind::Absent && mask == 0);
+    let legit_is_tls = legit && kind == CcKind::Response && sel != 0;
     let cr_len = if wire.c2s_all.len() >= 4 { u16::from_be_bytes([wire.c2s_all[2], wire.c2s_all[3]]) as usize } else { 0 };
     let after_cr: &[u8] = if wire.c2s_all.len() > cr_len { &wire.c2s_all[cr_len..] } else { &[] };
     let kind_s = match &kind { CcKind::Response => "response", CcKind::Failure(_) => "failure", CcKind::EchoRequest => "echoed-request", CcKind::Absent => "absent", CcKind::UnknownType(_) => "unknown-type" };
@@ -173,7 +177,7 @@ pub fn run(env: &mut Env) -> Outcome {
             let clear_ntlm = after_cr.windows(8).any(|w| w == b"NTLMSSP\0");
             return viol("c02/continued", &site, format!("illegitimate reply ({} selecting {:#x}, offered {:#x}) but the client wrote {} more raw bytes{} before failing with {:?}", kind_s, sel, mask, after_cr.len(), if clear_ntlm { " (NTLM token in clear!)" } else { "" }, result));
         }
-    } else if sel != 0 {
+    } else if legit_is_tls {
         ctxrc.borrow_mut().probe("legitimate_tls_selection");
         // everything after the request must be TLS
         if let Err(e) = only_tls_records(after_cr) {
